@@ -1626,6 +1626,13 @@ EnsureSizeAux(uint32 size, bool setNumItems, uint32 extraPreallocs, ItemType ** 
 {
    if (retOldArray) *retOldArray = NULL;  // default value, will be set non-NULL iff the old array needs deleting later
 
+   if ((allowShrink)&&(size < _itemCount))
+   {
+      // never reallocate to fewer slots than we have items to move into them
+      if (setNumItems) (void) RemoveTailMulti(_itemCount-size);
+                  else size = _itemCount;
+   }
+
    if ((_queue == NULL)||(allowShrink ? (_queueSize != (size+extraPreallocs)) : (_queueSize < size)))
    {
       const uint32 sqLen = ARRAYITEMS(_smallQueue);
